@@ -162,7 +162,7 @@ Print Assumptions C03_contract_rename_file.
    synthetic moved per descendant in os.walk order, by C14), out of it, into it (created + synthetic created per
    descendant).  Two facts about the tree are hypotheses: os.walk under the new name afterwards finds what it found
    under the old name before, and the names found are valid file names. *)
-Theorem C03_contract_rename_dir_partial : forall C full w k r, k_queue k = [] ->
+Theorem C03_contract_rename_dir_tree : forall C full w k r, k_queue k = [] ->
   forall dp np dq nq w',
   dp <> [] -> last_is_sep dp = false -> valid_name np = true ->
   dq <> [] -> last_is_sep dq = false -> valid_name nq = true ->
@@ -175,7 +175,24 @@ Theorem C03_contract_rename_dir_partial : forall C full w k r, k_queue k = [] ->
     collapse evs = collapse (contract (c_recursive C) full (c_root C) (w_fs w)
                                       (Rename (dp ++ sep :: np) (dq ++ sep :: nq))).
 Proof. exact contract_rename_dir_tree. Qed.
-Print Assumptions C03_contract_rename_dir_partial.
+Print Assumptions C03_contract_rename_dir_tree.
+
+(* The same from well-formedness of the tree: every entry's path is parent ++ "/" ++ valid name, the target does
+   not exist and nothing lies under it. *)
+Theorem C03_contract_rename_dir : forall C full w k r, k_queue k = [] ->
+  forall dp np dq nq w',
+  dp <> [] -> last_is_sep dp = false -> valid_name np = true ->
+  dq <> [] -> last_is_sep dq = false -> valid_name nq = true ->
+  cover C r k (w_fs w) dp -> cover C r k (w_fs w) dq ->
+  fisdir (dp ++ sep :: np) (w_fs w) = true -> fexists (dq ++ sep :: nq) (w_fs w) = false ->
+  (forall e, In e (w_fs w) -> wf_path (f_path e)) ->
+  (forall e, In e (w_fs w) -> under (dq ++ sep :: nq) (f_path e) = false) ->
+  apply_op w (Rename (dp ++ sep :: np) (dq ++ sep :: nq)) = Some w' ->
+  exists evs, deliver_one C full w k r (Rename (dp ++ sep :: np) (dq ++ sep :: nq)) = Some evs /\
+    collapse evs = collapse (contract (c_recursive C) full (c_root C) (w_fs w)
+                                      (Rename (dp ++ sep :: np) (dq ++ sep :: nq))).
+Proof. exact contract_rename_dir. Qed.
+Print Assumptions C03_contract_rename_dir.
 
 (* not proved: a directory that replaces an (empty) directory - the victim's IN_ATTRIB / IN_DELETE_SELF / IN_IGNORED
    are read after the reader has re-keyed its tables for the move *)
@@ -305,3 +322,12 @@ Example C03_contract_rename_dir_in_nonvacuous :            (* /O/z -> /R/d/z, de
         [mk DirCreated q []; parent_modified q;
          {| ev_cls := FileCreated; ev_src := ex_sl q 103; ev_dest := []; ev_synth := true |}].
 Proof. vm_compute. repeat split; try discriminate. repeat constructor; eexists; repeat split. Qed.
+
+Example C03_contract_rename_dir_wf_nonvacuous :            (* the tree hypotheses of C03_contract_rename_dir *)
+  let q := ex_sl ex_R 110 in
+  (forall e, In e ex_fs -> wf_path (f_path e)) /\ (forall e, In e ex_fs -> under q (f_path e) = false) /\
+  fisdir ex_Rd ex_fs = true /\ fexists q ex_fs = false.
+Proof.
+  split; [apply wf_fsb_sound; vm_compute; reflexivity|].
+  split; [apply not_under_sound; vm_compute; reflexivity|]. split; vm_compute; reflexivity.
+Qed.
